@@ -87,6 +87,13 @@ Theorem C15_init : forall nl nc orc, 0 < nl -> 0 < nc ->
 Proof. exact WinFocusHistory.C15_init. Qed.
 Print Assumptions C15_init.
 
+(* ... for every amount of fuel of the rectangle-set loops (the fuel is a field [r_fuel] of the window
+   state; [m_init] = [m_init_f rsfuel]); C15_history / C15_flush quantify over the state *)
+Theorem C15_init_any_fuel : forall fuel nl nc orc, 0 < nl -> 0 < nc ->
+  r_fault (m_root (m_init_f fuel nl nc orc)) = false -> FInvM (m_init_f fuel nl nc orc).
+Proof. exact WinFocusHistory.C15_init_f. Qed.
+Print Assumptions C15_init_any_fuel.
+
 (* when focus moves every OUT precedes every IN -- any defect configuration, any tree *)
 Theorem C15_focus_order : forall cfg chain child tree tree' evs rs,
   focus_gained cfg chain child tree = (tree', evs, rs) -> outs_before_ins evs false = true.
